@@ -153,7 +153,13 @@ theorem phi_step {s s' : State} {t : Nat} {l : Label} (hw : WokeOK s) (hs : step
     cases a with
     | add v => cases hs; qd0
     | push v => cases hs; qd0
-    | extend vs => cases vs <;> (cases hs; simp only [phi, hp, State.setPc, if_true, phiOf, actLen, List.length_cons]; omega)
+    | extend vs =>
+      cases vs with
+      | nil => cases hs; simp only [phi, hp, State.setPc, if_true, phiOf, actLen, List.length_cons]; omega
+      | cons v vs' =>
+        by_cases hv : v = 0
+        · simp only [hv, if_true] at hs; cases hs; simp only [phi, hp, State.setPc, if_true, phiOf, actLen, List.length_cons]; omega
+        · simp only [hv, if_false] at hs; cases hs; simp only [phi, hp, State.setPc, if_true, phiOf, actLen, List.length_cons]; omega
   | _ => rw [hp] at hs; cases hs; qd0
 
 set_option maxHeartbeats 4000000 in
@@ -198,7 +204,13 @@ theorem wokeOK_step {s s' : State} {t : Nat} {l : Label} (hw : WokeOK s) (hs : s
       cases a0 with
       | add v => cases hs; simp [State.setPc] at hpu
       | push v => cases hs; simp [State.setPc] at hpu
-      | extend vs => cases vs <;> (cases hs; simp [State.setPc] at hpu)
+      | extend vs =>
+        cases vs with
+        | nil => cases hs; simp [State.setPc] at hpu
+        | cons v vs' =>
+          by_cases hv : v = 0
+          · simp only [hv, if_true] at hs; cases hs; simp [State.setPc] at hpu
+          · simp only [hv, if_false] at hs; cases hs; simp [State.setPc] at hpu
     | _ =>
       rw [hp] at hs; cases hs
       simp only [State.setPc, if_true] at hpu
